@@ -37,6 +37,8 @@ AcceptInit ==
   \/ \E k \in 1..30 : m = MMsg("key_signature", <<k>>)
   \/ \E t \in TextTypes, L \in TextLens : m = MMsg(t, Text(L, 32, 90))
   \/ \E L \in {l \in TextLens : l <= 200} : m = MMsg("text", Text(L, 128, 128))   \* high bytes
+  \/ \E t \in TextTypes, L \in {0, 5} : m = MMsg(t, Text(L, 65, 20) \o <<0>>)       \* trailing NUL
+  \/ \E t \in TextTypes : m = MMsg(t, <<32, 65, 32, 10>>)                          \* blanks around
   \/ \E L \in TextLens : m = MMsg("sequencer_specific", Text(L, 0, 256))
   \/ \E tb \in {10, 96, 126}, L \in TextLens : m = MMsg("unknown_meta", <<tb>> \o Text(L, 0, 256))
 
